@@ -47,3 +47,17 @@ fn not_periodic() {
     }
     assert!(broke.iter().all(|b| *b), "periodic small-range draws: goals reached = {:?} (2-periodic, alternating, 4-, 8-, 16-periodic)", broke);
 }
+
+/// replay for the determinism obligation: two generators from the same seed (VERIF_DET_SEED) must give equal streams
+#[test]
+fn determinism_seed() {
+    let seed: u64 = std::env::var("VERIF_DET_SEED").ok().and_then(|s| s.parse().ok()).unwrap_or(42);
+    for _ in 0..50 {
+        let mut a = Rng::from_seed(seed);
+        std::thread::sleep(std::time::Duration::from_micros(50));
+        let mut b = Rng::from_seed(seed);
+        for _ in 0..8 {
+            assert_eq!(a.next_raw(), b.next_raw(), "equal seeds gave different streams (seed {})", seed);
+        }
+    }
+}
